@@ -285,7 +285,7 @@ package vanguard
 //@ func (*errorWriter).Write
 //@   preserves validErrW(e)
 //@   step rwStep(e.rw)
-//@   ensures[C10] old(blen(e.buffer)) + len(data) > limitOf(e.rw.op) ==> r0 == 0 && err != nil && e.rw.endWritten
+//@   ensures[C10,C08] old(blen(e.buffer)) + len(data) > limitOf(e.rw.op) ==> r0 == 0 && err != nil && e.rw.endWritten
 //@   ensures[C10,C08] old(blen(e.buffer)) + len(data) <= limitOf(e.rw.op) ==> r0 == len(data) && err == nil && blen(e.buffer) == old(blen(e.buffer)) + len(data)
 //@   ensures e.buffer == old(e.buffer) && e.rw == old(e.rw) && e.processBody == old(e.processBody)
 //@   modifies blen(e.buffer), blen(e.rw.buf), owned(e.rw.buf), #RWEND
